@@ -1792,4 +1792,308 @@ theorem safe_of_silent (cfg : Cfg) (hc : 0 < cfg.count) : ∀ (ops : List Op) (l
         have := (attr_window cfg e' hc).2
         omega
 
+/-! ### the limiters map: generations and maintenance -/
+
+theorem evLimKey_eq (cfg : Cfg) (e : Ev) : evLimKey cfg e = limKeyOf cfg e := rfl
+
+theorem evs_append (a b : List Op) : evs (a ++ b) = evs a ++ evs b := by
+  induction a with
+  | nil => rfl
+  | cons op t ih => cases op <;> simp [evs, ih]
+
+theorem evs_expires (ks : List Bytes) : evs (ks.map Op.expire) = [] := by
+  induction ks with
+  | nil => rfl
+  | cons k t ih => simp [evs, ih]
+
+theorem evs_expand (cfg : Cfg) (exp : Int) (r : Bool) : ∀ (ops : List MOp) (g : Gens),
+    evs (expand cfg exp r g ops) = mevs ops := by
+  intro ops
+  induction ops with
+  | nil => intro g; rfl
+  | cons op ops ih =>
+    intro g
+    cases op with
+    | ev e => simp [expand, expandStep, evs, mevs, ih]
+    | tick t => simp [expand, expandStep, evs_append, evs_expires, mevs, ih]
+
+theorem nowOK_of_clock (cfg : Cfg) (δ : Int) : ∀ (ops : List MOp) (cur last : Int),
+    ClockOK cfg δ cur last ops → nowOK cfg last (mevs ops) = true := by
+  intro ops
+  induction ops with
+  | nil => intros; rfl
+  | cons op ops ih =>
+    intro cur last h
+    cases op with
+    | ev e =>
+      simp only [ClockOK] at h
+      simp only [mevs, nowOK, Bool.and_eq_true, decide_eq_true_eq]
+      exact ⟨⟨h.1, h.2.2.2.1⟩, ih _ _ h.2.2.2.2⟩
+    | tick t =>
+      simp only [ClockOK] at h
+      simp only [mevs]
+      exact ih _ _ h.2.2
+
+theorem mem_setStamp (k : Bytes) (c : Int) (l : List (Bytes × Int)) (k2 : Bytes) (s2 : Int) :
+    (k2, s2) ∈ setStamp k c l ↔ ((k2, s2) ∈ l ∧ k2 ≠ k) ∨ (k2 = k ∧ s2 = c) := by
+  unfold setStamp
+  simp only [List.mem_append, List.mem_filter, bne_iff_ne, ne_eq, List.mem_singleton, Prod.mk.injEq]
+
+theorem touch_true (g : Gens) (k : Bytes) : touch true g k = { g with stamps := setStamp k g.cur g.stamps } := by
+  unfold touch
+  cases g.stamps.lookup k <;> simp
+
+theorem mem_expiredKeys (exp : Int) (g : Gens) (t : Int) (k : Bytes) :
+    k ∈ expiredKeys exp g t ↔ ∃ s, (k, s) ∈ g.stamps ∧ ¬ (t - s < exp) := by
+  unfold expiredKeys
+  simp only [List.mem_map, List.mem_filter, Bool.not_eq_eq_eq_not, Bool.not_true, decide_eq_false_iff_not]
+  constructor
+  · rintro ⟨⟨k', s⟩, ⟨hm, hn⟩, rfl⟩
+    exact ⟨s, hm, hn⟩
+  · rintro ⟨s, hm, hn⟩
+    exact ⟨(k, s), ⟨hm, hn⟩, rfl⟩
+
+theorem mem_tickGens (exp : Int) (g : Gens) (t : Int) (k : Bytes) (s : Int) :
+    (k, s) ∈ (tickGens exp g t).stamps ↔ (k, s) ∈ g.stamps ∧ t - s < exp := by
+  unfold tickGens
+  simp only [List.mem_filter, decide_eq_true_eq]
+
+/-- the `live` list after the `expire` ops of one maintenance iteration -/
+def dropKeys (live : List Bytes) (ks : List Bytes) : List Bytes :=
+  ks.foldl (fun l k => l.filter (fun k' => k' != k)) live
+
+theorem mem_dropKeys (ks : List Bytes) : ∀ (live : List Bytes) (x : Bytes),
+    x ∈ dropKeys live ks ↔ x ∈ live ∧ x ∉ ks := by
+  induction ks with
+  | nil => intro live x; simp [dropKeys]
+  | cons k t ih =>
+    intro live x
+    have := ih (live.filter (fun k' => k' != k)) x
+    simp only [dropKeys, List.foldl_cons] at this ⊢
+    rw [this]
+    simp only [List.mem_filter, bne_iff_ne, ne_eq, List.mem_cons, not_or]
+    constructor
+    · rintro ⟨⟨h1, h2⟩, h3⟩; exact ⟨h1, h2, h3⟩
+    · rintro ⟨h1, h2, h3⟩; exact ⟨⟨h1, h2⟩, h3⟩
+
+theorem silent_expires (cfg : Cfg) (hist : List Ev) (rest : List Op) : ∀ (ks : List Bytes) (live : List Bytes),
+    SilentExpiry cfg (dropKeys live ks) hist rest → SilentExpiry cfg live hist (ks.map Op.expire ++ rest) := by
+  intro ks
+  induction ks with
+  | nil => intro live h; simpa [dropKeys] using h
+  | cons k t ih =>
+    intro live h
+    simp only [List.map_cons, List.cons_append, SilentExpiry]
+    apply ih
+    simpa [dropKeys] using h
+
+theorem bucket_add_window (cfg : Cfg) (hI : 0 < cfg.interval) (a b : Int)
+    (h : a + (cfg.count : Int) * cfg.interval ≤ b) : bucketOf cfg a + cfg.count ≤ bucketOf cfg b := by
+  have := Int.ediv_le_ediv hI h
+  rw [Int.add_mul_ediv_right _ _ (by omega)] at this
+  exact this
+
+/-- what the generations know about the history, when every generation stamp is at most `δ` old -/
+structure GInv (cfg : Cfg) (δ : Int) (g : Gens) (last : Int) (live : List Bytes) (hist : List Ev) : Prop where
+  uniq : ∀ k s1 s2, (k, s1) ∈ g.stamps → (k, s2) ∈ g.stamps → s1 = s2
+  live : ∀ k s, (k, s) ∈ g.stamps → k ∈ live
+  fresh : ∀ k s, (k, s) ∈ g.stamps → ∀ e' ∈ hist, limKeyOf cfg e' = some k → e'.now ≤ s * 1000 + δ
+  dead : ∀ k, (∀ s, (k, s) ∉ g.stamps) → ∀ e' ∈ hist, limKeyOf cfg e' = some k →
+    e'.now + (cfg.count : Int) * cfg.interval ≤ g.cur * 1000
+  hist : ∀ e' ∈ hist, e'.now ≤ last
+
+/-- **maintenance is safe when the expiration covers the window plus the staleness of a stamp**:
+    the `expire` ops that the map's maintenance produces satisfy `SilentExpiry` -/
+theorem silent_of_clock (cfg : Cfg) (exp δ : Int) (hI : 0 < cfg.interval)
+    (hexp : (cfg.count : Int) * cfg.interval + δ ≤ exp * 1000) :
+    ∀ (ops : List MOp) (g : Gens) (last : Int) (live : List Bytes) (hist : List Ev),
+      GInv cfg δ g last live hist → ClockOK cfg δ g.cur last ops →
+      SilentExpiry cfg live hist (expand cfg exp true g ops) := by
+  intro ops
+  induction ops with
+  | nil => intros; trivial
+  | cons op ops ih =>
+    intro g last live hist hinv hclk
+    cases op with
+    | tick t =>
+      simp only [ClockOK] at hclk
+      obtain ⟨hct, hlt, hrest⟩ := hclk
+      simp only [expand, expandStep]
+      apply silent_expires
+      apply ih (tickGens exp g t) last _ hist _ hrest
+      refine ⟨?_, ?_, ?_, ?_, hinv.hist⟩
+      · intro k s1 s2 h1 h2
+        rw [mem_tickGens] at h1 h2
+        exact hinv.uniq k s1 s2 h1.1 h2.1
+      · intro k s h
+        rw [mem_tickGens] at h
+        rw [mem_dropKeys]
+        refine ⟨hinv.live k s h.1, ?_⟩
+        rw [mem_expiredKeys]
+        rintro ⟨s', hm, hn⟩
+        rw [hinv.uniq k s' s hm h.1] at hn
+        exact hn h.2
+      · intro k s h e' he' hk
+        rw [mem_tickGens] at h
+        exact hinv.fresh k s h.1 e' he' hk
+      · intro k hno e' he' hk
+        show e'.now + (cfg.count : Int) * cfg.interval ≤ t * 1000
+        by_cases hex : ∃ s, (k, s) ∈ g.stamps
+        · obtain ⟨s, hs⟩ := hex
+          have hnot : ¬ (t - s < exp) := by
+            intro hlt'
+            exact hno s ((mem_tickGens exp g t k s).mpr ⟨hs, hlt'⟩)
+          have := hinv.fresh k s hs e' he' hk
+          omega
+        · have := hinv.dead k (fun s hs => hex ⟨s, hs⟩) e' he' hk
+          omega
+    | ev e =>
+      simp only [ClockOK] at hclk
+      obtain ⟨hlast, hcur, hδ, hnow, hrest⟩ := hclk
+      simp only [expand, expandStep, List.singleton_append, SilentExpiry, evLimKey_eq]
+      refine ⟨?_, ?_⟩
+      · intro k hk
+        by_cases hex : ∃ s, (k, s) ∈ g.stamps
+        · obtain ⟨s, hs⟩ := hex
+          exact Or.inl (hinv.live k s hs)
+        · right
+          intro e' he' hk'
+          have := hinv.dead k (fun s hs => hex ⟨s, hs⟩) e' he' hk'
+          exact bucket_add_window cfg hI _ _ (by omega)
+      · cases hlk : limKeyOf cfg e with
+        | none =>
+          simp only
+          apply ih g e.now live (e :: hist) _ hrest
+          refine ⟨hinv.uniq, hinv.live, ?_, ?_, ?_⟩
+          · intro k s h e' he' hk
+            simp only [List.mem_cons] at he'
+            rcases he' with rfl | he'
+            · rw [hlk] at hk; cases hk
+            · exact hinv.fresh k s h e' he' hk
+          · intro k hno e' he' hk
+            simp only [List.mem_cons] at he'
+            rcases he' with rfl | he'
+            · rw [hlk] at hk; cases hk
+            · exact hinv.dead k hno e' he' hk
+          · intro e' he'
+            simp only [List.mem_cons] at he'
+            rcases he' with rfl | he'
+            · exact Int.le_refl _
+            · have := hinv.hist e' he'; omega
+        | some k =>
+          simp only [touch_true]
+          apply ih ⟨g.cur, setStamp k g.cur g.stamps⟩ e.now (k :: live) (e :: hist) _ hrest
+          refine ⟨?_, ?_, ?_, ?_, ?_⟩
+          · intro k2 s1 s2 h1 h2
+            simp only [mem_setStamp] at h1 h2
+            rcases h1 with ⟨h1, n1⟩ | ⟨e1, v1⟩ <;> rcases h2 with ⟨h2, n2⟩ | ⟨e2, v2⟩
+            · exact hinv.uniq k2 s1 s2 h1 h2
+            · exact absurd e2 n1
+            · exact absurd e1 n2
+            · rw [v1, v2]
+          · intro k2 s h
+            simp only [mem_setStamp] at h
+            rcases h with ⟨h, _⟩ | ⟨e1, _⟩
+            · exact List.mem_cons_of_mem _ (hinv.live k2 s h)
+            · rw [e1]; exact List.mem_cons_self
+          · intro k2 s h e' he' hk
+            simp only [mem_setStamp] at h
+            simp only [List.mem_cons] at he'
+            rcases h with ⟨h, n⟩ | ⟨e1, v1⟩
+            · rcases he' with rfl | he'
+              · rw [hlk] at hk; simp only [Option.some.injEq] at hk; exact absurd hk.symm n
+              · exact hinv.fresh k2 s h e' he' hk
+            · rw [v1]
+              rcases he' with rfl | he'
+              · exact hδ
+              · have := hinv.hist e' he'; omega
+          · intro k2 hno e' he' hk
+            have hne : k2 ≠ k := by
+              intro e1
+              exact hno g.cur ((mem_setStamp k g.cur g.stamps k2 g.cur).mpr (Or.inr ⟨e1, rfl⟩))
+            simp only [List.mem_cons] at he'
+            rcases he' with rfl | he'
+            · rw [hlk] at hk; simp only [Option.some.injEq] at hk; exact absurd hk.symm hne
+            · exact hinv.dead k2 (fun s hs => hno s ((mem_setStamp k g.cur g.stamps k2 s).mpr (Or.inl ⟨hs, hne⟩))) e' he' hk
+          · intro e' he'
+            simp only [List.mem_cons] at he'
+            rcases he' with rfl | he'
+            · exact Int.le_refl _
+            · have := hinv.hist e' he'; omega
+
+/-- the hypotheses of the bucket-level theorems hold for the ops a clock-driven map produces -/
+theorem hyp_of_clock (cfg : Cfg) (exp δ g0 : Int) (ops : List MOp) (hc : cfgOK cfg = true)
+    (hclk : ClockOK cfg δ g0 ((cfg.count : Int) * cfg.interval) ops)
+    (hexp : (cfg.count : Int) * cfg.interval + δ ≤ exp * 1000) :
+    Hyp cfg (expand cfg exp true ⟨g0, []⟩ ops) := by
+  have hw := cfgOK_wf cfg hc
+  refine ⟨hc, ?_, ?_⟩
+  · rw [evs_expand]; exact nowOK_of_clock cfg δ ops g0 _ hclk
+  · apply safe_of_silent cfg hw.count
+    apply silent_of_clock cfg exp δ hw.interval hexp ops ⟨g0, []⟩ _ [] [] _ hclk
+    refine ⟨?_, ?_, ?_, ?_, ?_⟩ <;> intros <;> simp_all
+
+/-- a key that is accessed at least once per expiration never loses its limiter -/
+theorem busy_never_expired (cfg : Cfg) (exp : Int) (k : Bytes) : ∀ (ops : List MOp) (g : Gens) (s : Option Int),
+    (∀ s', (k, s') ∈ g.stamps → s = some s') → BusyKey cfg exp k g.cur s ops →
+    Op.expire k ∉ expand cfg exp true g ops := by
+  intro ops
+  induction ops with
+  | nil => intro g s _ _ h; simp [expand] at h
+  | cons op ops ih =>
+    intro g s hs hb hmem
+    cases op with
+    | tick t =>
+      simp only [BusyKey] at hb
+      simp only [expand, expandStep, List.mem_append, List.mem_map, Op.expire.injEq] at hmem
+      rcases hmem with ⟨k', hk', rfl⟩ | hmem
+      · rw [mem_expiredKeys] at hk'
+        obtain ⟨s', hm, hn⟩ := hk'
+        exact hn (hb.1 s' (hs s' hm))
+      · refine ih (tickGens exp g t) s ?_ hb.2 hmem
+        intro s' h'
+        rw [mem_tickGens] at h'
+        exact hs s' h'.1
+    | ev e =>
+      simp only [BusyKey] at hb
+      simp only [expand, expandStep, List.singleton_append, List.mem_cons, reduceCtorEq, false_or,
+        evLimKey_eq] at hmem
+      cases hlk : limKeyOf cfg e with
+      | none =>
+        rw [hlk] at hmem hb
+        simp only [reduceCtorEq, ↓reduceIte] at hb
+        exact ih g s hs hb hmem
+      | some k' =>
+        rw [hlk] at hmem hb
+        simp only [touch_true] at hmem
+        by_cases hkk : k' = k
+        · subst hkk
+          simp only [↓reduceIte] at hb
+          refine ih ⟨g.cur, setStamp k' g.cur g.stamps⟩ (some g.cur) ?_ hb hmem
+          intro s' h'
+          simp only [mem_setStamp] at h'
+          rcases h' with ⟨_, n⟩ | ⟨_, v⟩
+          · exact absurd rfl n
+          · rw [v]
+        · have : ¬ (some k' = some k) := by intro h; exact hkk (Option.some.inj h)
+          simp only [this, ↓reduceIte] at hb
+          refine ih ⟨g.cur, setStamp k' g.cur g.stamps⟩ s ?_ hb hmem
+          intro s' h'
+          simp only [mem_setStamp] at h'
+          rcases h' with ⟨h', _⟩ | ⟨e1, _⟩
+          · exact hs s' h'
+          · exact absurd e1.symm hkk
+
+/-! instances for the map life cycle examples of Props/C16.lean: one bucket of 10 µs, limit 1,
+    maintenance every 4 µs, expiration 14 µs (window 10 µs + stamp staleness 4 µs) -/
+def cfgT : Cfg := ⟨1, 10000, [⟨[], 1, .count, Distr.empty⟩]⟩
+def evT (now : Int) : MOp := .ev ⟨ka, now, now, 1, []⟩
+/-- key a is used between all maintenance iterations; bucket 11 is exhausted at 112.5 µs -/
+def opsBusy : List MOp :=
+  [evT 100000, evT 100001, .tick 104, evT 104500, .tick 108, evT 108500, .tick 112, evT 112500, .tick 116, evT 116500]
+
+theorem clockBusy : ClockOK cfgT 4000 100 ((cfgT.count : Int) * cfgT.interval) opsBusy := by
+  simp only [opsBusy, evT, ClockOK, cfgT]
+  decide
+
 end FileD.ThrottleLemmas
